@@ -472,10 +472,32 @@ func run(c *core.Ctx) {
 		}
 	}()
 
-	// 2. the conflict relation -> pairs to hammer
+	// sizes of the stress
+	seed := c.Seed
+	pairMs, stressMs, episodes, clients, iters, conns := 70, 1500, 300, 12, 6, 6
+	procs := []int{2, 4, 16}
+	if c.Thorough() {
+		pairMs, stressMs, episodes, clients, iters, conns = 400, 20000, 1500, 24, 12, 12
+		procs = []int{1, 2, 3, 4, 8, 16}
+	}
+
+	// 2. network children need nothing from TLC: start them right away
+	var netRuns []*childRun
+	var netwg sync.WaitGroup
+	if want("net") {
+		var njobs []c17drv.Job
+		for i, p := range procs {
+			njobs = append(njobs, c17drv.Job{Phases: []string{"handshake_seq", "handshake", "duplex"}, Seed: seed*37 + int64(i), Procs: p, Yield: i%2 == 0, Clients: clients, Iters: iters, Conns: conns})
+		}
+		netwg.Add(1)
+		go func() { defer netwg.Done(); netRuns = runChildren(c, njobs, 2) }()
+	}
+
+	// 3. the conflict relation of the model -> pairs to hammer
 	pairs := parsePairs(c, kit.Generate(c, "Gen_"+specName+".tla", "Gen_C17_pairs.cfg", tlc.Options{}))
 	if c.IsBroken() {
 		mcwg.Wait()
+		netwg.Wait()
 		return
 	}
 	c.Set("conflict_pairs", len(pairs))
@@ -485,18 +507,15 @@ func run(c *core.Ctx) {
 		}
 	}
 
-	// 3. stress children (the same binary, race log per child)
-	seed := c.Seed
-	pairMs, stressMs, episodes, clients, iters, conns := 70, 1500, 300, 12, 6, 6
-	procs := []int{2, 4, 16}
-	if c.Thorough() {
-		pairMs, stressMs, episodes, clients, iters, conns = 400, 20000, 1500, 24, 12, 12
-		procs = []int{1, 2, 3, 4, 8, 16}
-	}
+	// 4. cache children (the same binary, race log per child): pair hammers, random stress, recorded histories
 	half := (len(pairs) + 1) / 2
 	var jobs []c17drv.Job
+	if want("hist") {
+		// histories: half of the episodes focus on one conflicting pair of the model each
+		jobs = append(jobs, c17drv.Job{Phases: []string{"hist"}, Seed: seed, Procs: 4, Episodes: episodes / 2, Pairs: pairs},
+			c17drv.Job{Phases: []string{"hist"}, Seed: seed + 7777, Procs: 8, Yield: true, Episodes: episodes - episodes/2, Pairs: pairs})
+	}
 	for i, p := range procs {
-		y := i%2 == 1
 		ps := pairs[:half]
 		if i%2 == 1 {
 			ps = pairs[half:]
@@ -505,23 +524,34 @@ func run(c *core.Ctx) {
 			ps = pairs
 		}
 		if want("cache") {
-			jobs = append(jobs, c17drv.Job{Phases: []string{"pairs", "stress"}, Seed: seed*31 + int64(i), Procs: p, Yield: y, Pairs: ps, PairMs: pairMs, StressMs: stressMs, StressG: 2 * p})
-		}
-		if want("net") {
-			jobs = append(jobs, c17drv.Job{Phases: []string{"handshake_seq", "handshake", "duplex"}, Seed: seed*37 + int64(i), Procs: p, Yield: !y, Clients: clients, Iters: iters, Conns: conns})
+			jobs = append(jobs, c17drv.Job{Phases: []string{"pairs", "stress"}, Seed: seed*31 + int64(i), Procs: p, Yield: i%2 == 1, Pairs: ps, PairMs: pairMs, StressMs: stressMs, StressG: 2 * p})
 		}
 	}
+	// histories first: their validation by TLC overlaps with the remaining children
+	var eps []c17drv.Episode
+	var acc int
+	var rej []c17drv.Episode
+	var histwg sync.WaitGroup
+	nh := 0
 	if want("hist") {
-		// histories: half of the episodes focus on one conflicting pair of the model each
-		jobs = append(jobs, c17drv.Job{Phases: []string{"hist"}, Seed: seed, Procs: 4, Episodes: episodes / 2, Pairs: pairs},
-			c17drv.Job{Phases: []string{"hist"}, Seed: seed + 7777, Procs: 8, Yield: true, Episodes: episodes - episodes/2, Pairs: pairs})
+		nh = 2
 	}
-	runs := runChildren(c, jobs, 4)
+	histRuns := runChildren(c, jobs[:nh], 2)
+	for _, cr := range histRuns {
+		if cr.err == nil {
+			eps = append(eps, cr.res.Episodes...)
+		}
+	}
+	histwg.Add(1)
+	go func() { defer histwg.Done(); acc, rej = validateHistories(c, eps) }()
+	runs := append(histRuns, runChildren(c, jobs[nh:], 3)...)
+	netwg.Wait()
+	runs = append(runs, netRuns...)
+	histwg.Wait()
 	mcwg.Wait()
 	if c.IsBroken() {
 		return
 	}
-	var eps []c17drv.Episode
 	var cacheOps, handshakes, resumed, fresh, msgs int64
 	usedProcs := map[int]bool{}
 	for _, cr := range runs {
@@ -537,7 +567,6 @@ func run(c *core.Ctx) {
 		}
 		usedProcs[cr.res.Procs] = true
 		cacheOps += cr.res.CacheOps
-		eps = append(eps, cr.res.Episodes...)
 		for k := range cr.res.PairOps {
 			c.Eval("pair/"+k+"/"+strconv.Itoa(cr.job.Procs), true)
 		}
@@ -576,7 +605,6 @@ func run(c *core.Ctx) {
 	functionalFailures(c, runs, func(job c17drv.Job) *childRun { return runChild(c, job) })
 
 	// 6. histories against the sequential specification (linearizability search by TLC)
-	acc, rej := validateHistories(c, eps)
 	nEv := 0
 	for i, e := range eps {
 		nEv += len(e.Ev)
